@@ -32,7 +32,7 @@ def parse_notes(d):
 
 
 def verify(prop, k):
-    w = f"/tmp/wt-{prop}"
+    w = f"/tmp/wt9-{prop}" if int(k) >= 25 else f"/tmp/wt-{prop}"
     d = f"{w}/.mut/{k}"
     notes, dest, cmd = parse_notes(d)
     res = {"property": prop, "k": k, "demo_dest": dest, "demo_cmd": cmd}
@@ -72,7 +72,7 @@ def verify(prop, k):
 
 
 def check(prop, k, props=None):
-    d = f"/tmp/wt-{prop}/.mut/{k}"
+    d = (f"/tmp/wt9-{prop}/.mut/{k}" if int(k) >= 25 else f"/tmp/wt-{prop}/.mut/{k}")
     if not os.path.isdir(d):
         d = f"{VERIF}/seeded/{prop}-{k}"
     rc, out = sh("git -C /repo status --porcelain --untracked-files=no")
@@ -99,7 +99,7 @@ def check(prop, k, props=None):
 
 
 def keep(prop, k):
-    d = f"/tmp/wt-{prop}/.mut/{k}"
+    d = (f"/tmp/wt9-{prop}/.mut/{k}" if int(k) >= 25 else f"/tmp/wt-{prop}/.mut/{k}")
     dst = f"{VERIF}/seeded/{prop}-{k}"
     os.makedirs(dst, exist_ok=True)
     for f in ["patch.diff", "demo.rs", "notes.md"]:
